@@ -194,11 +194,14 @@ CHECKS.update({
                 "sampled (quick) or every (thorough) create/write/fsync/unlink position with that call failing (ENOSPC/EIO, no "
                 "effect); the operation the fault hit must report an error, every other operation must succeed, and every key is "
                 "read in the running process and again after a restart against the map with the failed operation applied or not. "
-                "Proved in Coq (fault-free model): ids are consumed before creation and never reused, the writer's file is always "
-                "the newest hint-less file, a stale writer rolls over before appending. The fault-aware engine model is not built.",
+                "Proved in Coq: ids are consumed before creation and never reused, the writer's file is always the newest hint-less "
+                "file, a stale writer rolls over before appending (fault-free model); and the restart half of the property for "
+                "set/delete/reopen - what a failed operation leaves on disk is a crash image of its trace, and every crash image "
+                "recovers all earlier operations and the failed one entirely or not (from C03). The fault-aware engine model "
+                "(behaviour of the running process after an error) is not built.",
         "design_ref": "DESIGN.md section 8, C20", "note": "Faults are all-or-nothing per call, one per run. The injector sees libc "
-                "calls on *.bitcask.* files. Theorems cover only the id discipline of the fault-free model.",
-        "technique": "exhaustive single-fault injection (LD_PRELOAD) + Coq proof of the id discipline",
+                "calls on *.bitcask.* files. Theorems cover the id discipline and the restart half; the in-process half is enumeration only.",
+        "technique": "exhaustive single-fault injection (LD_PRELOAD) + Coq proof of the id discipline and of restart-after-fault (via crash images)",
         "category": "fault_enumeration",
     },
     "C04": {
